@@ -32,7 +32,7 @@ PROVIDERS = ("mock_oid_cs", "mock_oid_ci", "mock_path_cs", "mock_path_ci", "fs")
 
 
 def budget(tier):
-    return {"quick": {"runs": 3000, "wall": 170}, "thorough": {"runs": 150000, "wall": 1500}}[tier]
+    return {"quick": {"runs": 3000, "wall": 170}, "thorough": {"runs": 36000, "wall": 900}}[tier]
 
 
 class Ref:
